@@ -1227,6 +1227,17 @@ def _apply_rules(program, rep):
         if recv == OUR and len(args) == 1:
             f = [x for x in T.all_facts(n)]
             adds.append((c.func.attr, plain(args[0]), f, n))
+    if adds:
+        lp0 = _loop(adds[0][3].ast)
+        if lp0 is None or not isinstance(lp0, ast.For) or plain(T.term(
+                lp0.iter, cfg.loop_head[id(lp0)])) != (
+                    "call", ("global", "enumerate"), (TAB,), ()):
+            # the removed entries are visited some other way (a loop over
+            # the merge's own entries, indices into the table): that form
+            # is not read
+            raise AnalysisError("apply: the removed entries are not "
+                                "recorded in a loop over enumerate(table); "
+                                "that form is not analysed")
     pKM, pALI = plain(KM), plain(ALI)
     pop_def = ("call", ("attr", pALI, "pop"), (pKM, ("set", pKM)), ())
     pop_ = ("call", ("attr", pALI, "pop"), (pKM,), ())
